@@ -30,6 +30,11 @@ def extra(led, tier, seed):
     led.extend(o for o in fit_loop.obligations() if "labels_ = _infer(X).argmax(1)" in o.name)
     from contracts import infer_local
     led.extend(infer_local.native_locality(seed, tier))
+    # Kauri: predict(X_train) == labels_ needs the tree to store exactly the rule that partitioned the samples during fit
+    from contracts import kauri_fit, kauri_native
+    led.extend(o for o in kauri_fit.obligations() if o.name.startswith("Kauri.fit:") and any(k in o.name for k in (
+        "left = samples of the chosen leaf", "tree: _add_child", "the split handed to the tree", "labels_ = (Y @ Z).argmax(0)", "Z: the right samples", "Y: the old leaf")))
+    led.extend(o for o in kauri_native.obligations(tier, seed) if "structural limits" in o.name)
     led.assume("A1", "A2", "A3", "A4", "A8",
                "A5 (discharged for softmax): the installed sklearn softmax is row-wise -- it equals the row-wise stub for every row ordering (contracts/external_deps.py); assumed: check_array returns the validated array; np.argmax(axis=1) is row-wise",
                "A5: sklearn pairwise_kernels(X, Y)[i] depends only on X[i] and Y; a callable base_kernel is assumed row-local (user code)",
